@@ -133,6 +133,14 @@ def solve_obligation(o, timeout_s=10, dump_dir=None, inputs=None,
                     break
             th.join()
             r = box[0] if box else z3.unknown
+            if cvc5_early is not None:
+                # an interrupt that arrived after z3 had already finished stays
+                # pending on the context and would cancel the next check: absorb
+                # it with trivial checks until one goes through
+                for _ in range(3):
+                    d = z3.Solver(ctx=s.ctx)
+                    if d.check() == z3.sat:
+                        break
             if proc.poll() is None:
                 if r in (z3.sat, z3.unsat):
                     proc.kill()
